@@ -83,6 +83,8 @@ func c16Child() {
 		var res histResult
 		if mode == "e2e" {
 			res = runE2EHistory(seed, h, pool, ca, dir, now, stress)
+		} else if mode == "storm" {
+			res = runStormHistory(seed, h, pool, ca, dir, now)
 		} else {
 			res = runSignerHistory(seed, h, pool, ca, dir, now, stress)
 		}
@@ -179,6 +181,11 @@ func TestC16(t *testing.T) {
 		}
 	}
 	jobs = append(jobs, job{"witness", 0, 0, 0, 0}, job{"twosigners", 0, 0, 0, 0}, job{"certexpiry", 0, 0, 0, 0})
+	// bursts of replacements arriving while a reload is being processed
+	nStorm, stBatch := r.Pick(60, 600), r.Pick(15, 50)
+	for f, i := 0, 0; f < nStorm; f, i = f+stBatch, i+1 {
+		jobs = append(jobs, job{"storm", 900000 + f, min(stBatch, nStorm-f), 0, []int{0, 2, 4, 1}[i%4]})
+	}
 	for f, i := 0, 0; f < nSigner; f, i = f+sBatch, i+1 {
 		// scheduler regimes: default GOMAXPROCS, 2 and 1 processors
 		jobs = append(jobs, job{"signer", f, min(sBatch, nSigner-f), 0, []int{0, 2, 1, 2}[i%4]})
@@ -326,7 +333,11 @@ func TestC16(t *testing.T) {
 				if hr.Cfg != nil {
 					idx = hr.Cfg.Index
 				}
-				r.Case(fmt.Sprintf("%s/%d/%d/%s", m, r.Seed, idx, strings.Join(hr.Kinds, ",")), hr.Overlaps > 0)
+				nontrivial := hr.Overlaps > 0
+				if hr.Storm != nil {
+					nontrivial = hr.Storm.ReplDuring > 0
+				}
+				r.Case(fmt.Sprintf("%s/%d/%d/%s", m, r.Seed, idx, strings.Join(hr.Kinds, ",")), nontrivial)
 				for _, k := range hr.Kinds {
 					kinds[k]++
 				}
@@ -348,6 +359,21 @@ func TestC16(t *testing.T) {
 				r.Count(m+"_reloads_not_observed", hr.Unobs)
 				r.Count(m+"_tokens_paired_with_later_key_set", hr.Paired)
 				r.Count(m+"_key_sets_fetched_after_token_of_reloaded_generation", hr.AfterTok)
+				r.Count(m+"_generations_relabelling_the_active_key", hr.Relabels)
+				r.Count(m+"_generations_relabelling_the_active_key_and_adding_keys", hr.RelabelsMore)
+				if hr.Final != nil {
+					r.Count(m+"_quiescent_token_and_key_set_checks", 1)
+				}
+				if s := hr.Storm; s != nil {
+					r.Count("storm_bursts", s.Bursts)
+					r.Count("storm_replacements", s.Replacements)
+					r.Count("storm_replacements_during_reload_processing", s.ReplDuring)
+					r.Count("storm_token_key_set_pairs_between_reloads", s.JudgedPairs)
+					r.Count("storm_token_key_set_pairs_overlapping_a_reload", s.Unjudged)
+					r.Count("storm_quiescent_checks", s.Quiescent)
+					r.Count("storm_bursts_with_a_store_that_must_be_rejected", s.BadInBurst)
+					r.Count("storm_bursts_alternating_a_relabelled_key", s.RelabelIn)
+				}
 				if hr.Verdict == "illegal" && m == "signer" {
 					r.Violation("not-linearizable", fmt.Sprintf("signer history %d is not linearizable w.r.t. a register 'current key-store generation'", idx), hr)
 				}
